@@ -65,7 +65,7 @@ func init() {
 		},
 
 		// ---- repo logging: no-ops (M-LOGGER)
-		stslog + "Debug": nop, stslog + "Info": nop, stslog + "Error": nop,
+		stslog + "Debug": logNop, stslog + "Info": logNop, stslog + "Error": logNop,
 		stslog + "Init": nop, stslog + "InitExternal": nop, stslog + "SetDebug": nop,
 		stslog + "GetDebug": func(fr *frame, a []value) value { return false },
 		stslog + "check":    nop,
@@ -694,6 +694,20 @@ func fmtSprintf(fr *frame, a []value) value {
 	f, ok := a[0].(string)
 	if !ok {
 		return symMarker
+	}
+	// integer verbs print the number, not String() (time.Month, ...)
+	if l, ok := a[1].([]value); ok {
+		for k, vb := range verbsOf(f) {
+			if k < len(l) && k < len(args) && strings.IndexByte("dxXobcU", vb) >= 0 {
+				if e, ok := l[k].(iface); ok && e.t != nil {
+					if _, isStr := args[k].(string); isStr {
+						if _, wasStr := e.v.(string); !wasStr {
+							args[k] = nativeArg(fr.i, e.v, &sym)
+						}
+					}
+				}
+			}
+		}
 	}
 	s := fmt.Sprintf(f, args...)
 	if sym && !strings.Contains(s, symMarker) {
